@@ -85,11 +85,13 @@ def run(pid, tier):
             out.violation(f['obligation'], 'verus (failing input from %s, harness %s)' % (cex['source'], cex['harness']), f['verifier_output'],
                           failing_input={'crate': 'idxcheck', 'harness': cex['harness'], 'bytes': cex['input_bytes'], 'failed_on_real_code': cex['replay_failed']},
                           replay_transcript=cex['replay_stdout'])
-        elif 'invariant' in f['kind'] or 'decreases' in f['kind']:
+        elif 'invariant' in f['kind'] or 'decreases' in f['kind'] or 'arithmetic' in f['kind']:
             # a loop invariant is a proof artefact: its failure alone demonstrates nothing about the property (a correct
-            # refactor of the loop can invalidate it).  It is reported as a violation only together with a failing input.
-            out.inconclusive.append('verus: the spliced loop invariant of %s no longer holds and the bounded contract enumeration of the real function '
-                                    'found no failing input: proof lost, no violation demonstrated.\n%s' % (f['obligation'], f['verifier_output'][:1500]))
+            # refactor of the loop can invalidate it).  Machine-arithmetic overflow on container sizes cannot be excluded by
+            # Verus (len() <= usize::MAX is all it knows) although no in-memory map reaches it.  Both are reported as a
+            # violation only together with a failing input.
+            out.inconclusive.append('verus: %s of %s and the bounded contract enumeration of the real function found no failing input: '
+                                    'proof lost, no violation demonstrated.\n%s' % (f['kind'], f['obligation'], f['verifier_output'][:1500]))
         else:
             out.violation(f['obligation'], 'verus', f['verifier_output'])
     for msg in k['inconclusive']:
